@@ -117,8 +117,9 @@ def run(check, an: Analysis):
             for index in mut:
                 n_mut += 1
                 tests = [e for e in path.events[:index] if e.kind == 'test']
-                ok = bool(tests) and tests[-1]['value'] is True and \
-                    same_inequality(tests[-1].node, guard_t)
+                want = rules.asserted(ast.parse(guard_t, mode='eval').body, True)
+                facts = [f for _p, f, _a in rules.path_inequalities(path, 0, index)]
+                ok = bool(tests) and want in facts
                 check.instance('G', '%s:guard' % label, ok, path.events[index].where,
                                'the change of the %s is dominated by `%s`%s' % (
                                    what, guard_t, '' if ok else ' (found `%s`)' % (
@@ -203,9 +204,11 @@ def run(check, an: Analysis):
                     steps.append(('trigger', tuple(args)))
                 elif is_call_to(event, '_trigger_%s' % other):
                     steps.append(('trigger-other', tuple(args)))
-            ok &= steps == [('base-init', (res,)), ('enqueue', ('self',)),
-                            ('callback', ('%s._trigger_%s' % (res, other),)),
-                            ('trigger', ('None',))]
+            middle = sorted(steps[1:-1])
+            ok &= len(steps) == 4 and steps[0] == ('base-init', (res,)) and \
+                steps[-1] == ('trigger', ('None',)) and middle == sorted([
+                    ('enqueue', ('self',)),
+                    ('callback', ('%s._trigger_%s' % (res, other),))])
         check.instance('S', '%s.__init__' % cls_qn.rsplit('.', 1)[-1], ok and n > 0,
                        where_fn(init.fn), 'enqueue, register the inverse trigger as callback, '
                        'trigger the own side at once (%d normal paths)' % n, analysed=n)
@@ -394,7 +397,7 @@ def run(check, an: Analysis):
     # ---- F ------------------------------------------------------------------
     for cls_qn, kind, ops in ((STORE, 'deque', {'append', 'popleft'}),
                               (PRIOSTORE, 'SortedList', {'add', 'pop'}),
-                              (FILTERSTORE, 'list', {'pop'})):
+                              (FILTERSTORE, 'list', {'append', 'pop'})):
         init = an.method(cls_qn, '__init__')
         made = [n for n in ast.walk(init.node) if isinstance(n, ast.Assign)
                 and ast.unparse(n.targets[0]) == 'self._items']
@@ -402,16 +405,17 @@ def run(check, an: Analysis):
             '%s()' % kind, '[]' if kind == 'list' else '%s()' % kind)
         found = set()
         for name in ('_do_put', '_do_get'):
-            method = an.p.find_method(cls_qn, name)
-            if method.cls.qn != cls_qn:
-                continue
-            for node in ast.walk(method.node):
-                if isinstance(node, ast.Call) and isinstance(node.func, ast.Attribute) and \
-                        ast.unparse(node.func.value) == 'self._items':
-                    found.add(node.func.attr)
-                    if node.func.attr == 'pop' and cls_qn == PRIOSTORE:
-                        ok = ok and len(node.args) == 1 and isinstance(
-                            node.args[0], ast.Constant) and node.args[0].value == 0
+            callee = an.callee(cls_qn, name)
+            for path in an.paths(callee):
+                for index, event in enumerate(path.events):
+                    node = event.node
+                    if event.kind == 'call' and isinstance(node, ast.Call) and \
+                            isinstance(node.func, ast.Attribute) and \
+                            rules.value_text(path, index, node.func.value) == 'self._items':
+                        found.add(node.func.attr)
+                        if node.func.attr == 'pop' and cls_qn == PRIOSTORE:
+                            ok = ok and len(node.args) == 1 and rules.value_text(
+                                path, index, node.args[0]) == '0'
         check.instance('F', '%s:items-discipline' % cls_qn.rsplit('.', 1)[-1],
                        ok and found == ops, where_fn(init),
                        'items kept in a %s, operations %s' % (kind, sorted(found)))
@@ -595,7 +599,7 @@ def _serves_by_scan(an: Analysis, callee: Callee, queue: str, do: str):
             for e in kept:
                 name = None
                 if e.kind == 'call':
-                    name = rules.text_at(path, e, e.node.func.value)
+                    name = ast.unparse(e.node.func.value)
                 else:
                     following = [s for s in events[stop:] if s.kind == 'store'
                                  and s.get('value') is e.data.get('comprehension')]
@@ -648,7 +652,8 @@ def _mutations(path, mutation, ev):
         else:
             if event.kind == 'call' and isinstance(event.node, ast.Call) and \
                     isinstance(event.node.func, ast.Attribute) and \
-                    rules.text_at(path, event, event.node.func.value) == mutation[1].rsplit('.', 1)[0] and \
+                    rules.text_at(path, event, event.node.func.value) == \
+                    mutation[1].rsplit('.', 1)[0] and \
                     event.node.func.attr in ('append', 'add', 'appendleft', 'insert',
                                              'extend', 'pop', 'popleft', 'remove', 'clear'):
                 result.append(index)
